@@ -145,3 +145,18 @@ MUTANTS += [
     mut('F36-regress-calc_peak-int', ['C08'], (IM, "    \"\"\"Calculates the peak absolute response\"\"\"\n    return max(abs(float(min(motion))), float(max(motion)))\n\n\ndef calc_sir", "    \"\"\"Calculates the peak absolute response\"\"\"\n    return max(abs(min(motion)), max(motion))\n\n\ndef calc_sir")),
     mut('F37-regress-smooth-int-abs', ['C07'], ('eqsig/fns/frequency.py', "np.abs(fa_spectrum * 1.0)[:, np.newaxis]", "abs(fa_spectrum)[:, np.newaxis]")),
 ]
+
+# ---- wave-4 follow-ups: derived objects, object-level purity, returned-object ownership, refinement at the object level -----------
+MU = 'eqsig/multiple.py'
+IM = 'eqsig/im.py'
+TS = 'eqsig/fns/time_step.py'
+MUTANTS += [
+    mut('c04-combine-inherits-pga-memo', ['C04'], (MU, "    new_sig = AccSignal(combo, acc_sig_ns.dt)\n    return new_sig",
+        "    new_sig = AccSignal(combo, acc_sig_ns.dt)\n    if getattr(acc_sig_we, '_cached_params', None) and 'pga' in acc_sig_we._cached_params and angle == 0:\n        new_sig._cached_params['pga'] = acc_sig_we._cached_params['pga']\n    return new_sig")),
+    mut('c05-max-velocity-period-sets-response-times', ['C05'], (IM, "    new_sig = AccSignal(asig.values, asig.dt)\n    new_sig.generate_response_spectrum(response_times=periods, xi=0.15)",
+        "    new_sig = asig\n    new_sig.generate_response_spectrum(response_times=periods, xi=0.15)")),
+    mut('c05-resample-returns-argument-when-same-dt', ['C05'], (TS, "def resample_to_approx_dt(asig, target_dt=0.01, even=True):",
+        "def resample_to_approx_dt(asig, target_dt=0.01, even=True):\n    if asig.dt == target_dt and not (even and asig.npts % 2):\n        return asig")),
+    mut('c02-objrefine-trim-by-truncated-factor', ['C02', 'C03'], (SG, "            values_interp, dt_interp = interp_array_to_approx_dt(self.values, self.dt, target_dt, even=False)\n",
+        "            values_interp, dt_interp = interp_array_to_approx_dt(self.values, self.dt, target_dt, even=False)\n            values_interp = values_interp[:int(self.dt / dt_interp) * (self.npts - 1) + 1]\n")),
+]
